@@ -8,7 +8,8 @@ open DoitModel.Run (RS Name)
 
 structure ObeyInv (inp : Input) (s : Sys) : Prop where
   core : ObeyCore inp s
-  yld : ∀ n, s.susp = .yielded n → ∀ nd, s.nodes n = some nd → nd.pc = .done ∧ nd.pend = [] ∧ nd.waitRun = []
+  yld : ∀ n, s.susp = .yielded n → ∀ nd, s.nodes n = some nd →
+    nd.pc = .done ∧ nd.pend = [] ∧ nd.waitRun = [] ∧ nd.task.loader = none
 
 theorem genStep_susp {s : Sys} {n : Name} {nd : Node} {d : Name} {pc' : PC} {m : Name}
     (h : (genStep s n nd d pc').susp = .yielded m) : s.susp = .yielded m := by
@@ -170,7 +171,7 @@ theorem obey_step {inp : Input} {s s' : Sys} {c : Choice} (h : ObeyInv inp s) (h
         rw [this] at hnd'
         simp only [setNode, if_true] at hnd'
         cases hnd'
-        exact ⟨rfl, hq.1, hq.2⟩
+        exact ⟨rfl, hq.1, hq.2.1, hq.2.2⟩
     | yielded n =>
       simp only [hsu] at hs
       exact ⟨core_selectStep h.core ha (h.yld n hsu) hs, fun m hm => absurd hm (selectStep_susp hs m)⟩
